@@ -191,6 +191,15 @@ pub fn catalogue() -> Vec<Entry> {
         e::<Vec<BTreeMap<u8, Option<jub::Affine>>>>("Vec<BTreeMap<u8,Option<EdwardsAffine>>>", C18_10, 1, 1),
         e::<Vec<ark_ec::pairing::PairingOutput<bls::Bls12_381>>>("Vec<PairingOutput<Bls12_381>>", C18_10, 1, 1),
         e::<[ark_ec::pairing::PairingOutput<bls::Bls12_381>; 2]>("[PairingOutput<Bls12_381>;2]", C18_10, 1, 1),
+        e::<Option<Option<u8>>>("Option<Option<u8>>", C18, 1, 8),
+        e::<Option<(bool, Option<String>)>>("Option<(bool,Option<String>)>", C18, 1, 8),
+        e::<PhantomData<u64>>("PhantomData<u64>", C18, 1, 8),
+        e::<(u8, PhantomData<u16>, u8)>("(u8,PhantomData<u16>,u8)", C18, 1, 8),
+        e::<UnitS>("derive UnitS", C18, 1, 8),
+        e::<(UnitS, u16, Empty)>("(UnitS,u16,Empty)", C18, 1, 8),
+        e::<BTreeMap<u16, BTreeSet<u8>>>("BTreeMap<u16,BTreeSet<u8>>", C18, 1, 8),
+        e::<LinkedList<(u8, String)>>("LinkedList<(u8,String)>", C18, 1, 8),
+        e::<(i8, i16, i32, i64, isize)>("(i8,i16,i32,i64,isize)", C18, 1, 8),
         e::<WithConst<3>>("derive WithConst<3>", C18, 2, 8),
         e::<Deep>("derive Deep", C18_10, 2, 1),
         e::<Single>("derive Single", C18, 1, 8),
